@@ -38,6 +38,16 @@ import os
 import common
 
 ALPHABET = [47, 42, 10, 97, 34, 233]
+# Third audit: the sweeps depend on VERIF_SEED.  Every alphabet keeps the comment
+# characters / * and the newline; the other symbols are drawn from these pools
+# with ctx.rng (so two seeds explore different spaces), backslash and blank are
+# in both pools, the double quote is a fixed member of the second alphabet.
+POOL1 = [97, 34, 233, 92, 32, 13, 9, 39]
+POOL2 = [13, 9, 0, 97, 233, 0xFEFF, 0x1F600, 0x2028, 0x85, 0x0B, 0x0C, 39, 0x20AC, 0xA0, 0x3000, 33, 64, 35, 0x1680, 0x2003,
+         0x202F, 0x205F, 0x1C, 0x1F, 37, 38, 124, 91]
+# third sweep: / * and ONE scalar drawn from everything below (incl. the scalars no
+# other generator produces: U+000B, U+001C-1F, ! @ % & | [, the Unicode blanks), long strings
+POOL3 = POOL1 + POOL2 + [10, 0x1D, 0x1E, 0x2000, 0x200A, 0x2029, 0x7F, 0x80, 0x7FF, 0x800, 0xFFFF, 0x10000, 0x10FFFF, 0xFFFD]
 # second exhaustive alphabet: scalars of every UTF-8 length, control characters and
 # code points that editors/tools sometimes treat specially (BOM), next to the
 # comment characters — so that a special case for ONE scalar (possibly only at a
@@ -45,15 +55,17 @@ ALPHABET = [47, 42, 10, 97, 34, 233]
 ALPHABET2 = [47, 42, 10, 13, 9, 0, 97, 233, 0xFEFF, 0x1F600]
 # "interesting" code points for the random texts
 INTERESTING = [0xFEFF, 0x200B, 0xA0, 0x2028, 0x2029, 13, 9, 12, 0, 0x1F600, 0x10FFFF, 0xFFFD, 0x85,
-               47, 42, 34, 39, 92, 35, 0x7F, 0x80, 0x7FF, 0x800, 0xFFFF, 0x10000]
+               47, 42, 34, 39, 92, 35, 0x7F, 0x80, 0x7FF, 0x800, 0xFFFF, 0x10000,
+               # third audit: scalars no generator produced (Unicode white space and separators, `!`, `@`, ...)
+               0x0B, 0x1C, 0x1D, 0x1E, 0x1F, 33, 64, 37, 38, 124, 91, 0x1680, 0x2000, 0x200A, 0x202F, 0x205F, 0x3000]
 WIDE = [47, 42, 10, 13, 32, 9, 97, 34, 39, 92, 233, 0x20AC, 0x1F600, 0x7F, 0x80, 0x7FF, 0x800, 0xFFFF, 0x10000]
 
 # comment shapes (DESIGN Appendix C and the property text); "block" shapes are
 # self-contained, "line" shapes run to the end of the line
 BLOCK_SHAPES = ["/**/", "/***/", "/****/", "/* x **/", "/** doc **/", "/*/*/", "/*/ x */", "/*\"*/", "/* é */",
-                "/* // */", "/* /* */", "/*a*b/c*/", "/* €\U0001F600 */", "/*'*/"]
+                "/* // */", "/* /* */", "/*a*b/c*/", "/* €\U0001F600 */", "/*'*/", "/*! x */", "/*@ x */", "/* \\*/", "/*\x0b*/"]
 MULTILINE_SHAPES = ["/*\n*/", "/* a\n * b\n **/", "/*\n//\n*/"]
-LINE_SHAPES = ["//", "//*", "// é", "// /*", "///", "//*/", "// \"", "//**/ x"]
+LINE_SHAPES = ["//", "//*", "// é", "// /*", "///", "//*/", "// \"", "//**/ x", "//! x", "//@ x", "// x \\", "//\x0b x"]
 
 # Comments whose CONTENT looks like code.  A consumer that reads the raw source
 # instead of the pre-processed text (a version check by regular expression, an
@@ -84,6 +96,18 @@ STAR_SHAPES = ["/*****/", "/******/", "/* x ***/", "/* x ****/", "/**//**/", "/*
                "/*/**/", "/*//*/", "/* * / */", "/*/ **/"]
 BLOCK_SHAPES = BLOCK_SHAPES + STAR_SHAPES + PAYLOAD_BLOCK
 LINE_SHAPES = LINE_SHAPES + PAYLOAD_LINE
+# Third audit: code-like text on its OWN LINE inside a block comment (only a block
+# comment can make a raw line of the file START with comment text).  A consumer
+# that scans the raw file line by line (`lines().any(|l| l.trim_start().starts_with("pragma circom"))`,
+# a line-anchored include / main-component scan) sees exactly these.
+OWN_LINE_SHAPES = ["/*\n%s\n*/" % t for t, _ in PAYLOADS] + \
+                  ["/*\n  \t%s\n*/" % PAYLOADS[1][0], "/* x\n%s */" % PAYLOADS[0][0], "/**\n * doc\n%s\n **/" % PAYLOADS[1][0],
+                   "/*\r\n%s\r\n*/" % PAYLOADS[1][0]]
+MULTILINE_SHAPES = MULTILINE_SHAPES + OWN_LINE_SHAPES
+# long comments (third audit: nothing was longer than 1.6 kB; offsets >= 2^16 were never reached)
+LONG_BLOCK = "/*" + " long \u00e9 /* x * y // z\n" * 120 + "**/"          # about 3 kB, 120 lines
+LONG_LINE = "// " + "long \u00e9 /* x */ " * 150                              # about 3 kB, one line
+HUGE_BLOCK = "/*" + "0123456789abcde\n" * 4200 + "*/"                          # > 65 536 bytes
 
 # Code lines with comment openers / closers INSIDE STRING LITERALS.  String
 # literals are not special for the comment lexer (Spec.LexSpec, DESIGN §4 C05 —
@@ -103,6 +127,9 @@ STRING_LINES = [
     'log("x/*y"); /* z */',
     'log("x/*y", n); /** z **/ b === a;',
     'log("x/*y");',
+    # white space inside a comment inside a string: the stripper turns TAB into a blank, so the string the
+    # parser sees differs between a stripper that blanks and one that keeps white space
+    'log("a /*\t*/ b");',
 ]
 
 
@@ -127,9 +154,11 @@ def split_res(out_line):
     return head, res
 
 
-def sweep(ctx, harness, model, maxlen, alphabet=None):
+def sweep(ctx, harness, model, maxlen, alphabet=None, fid=0):
     """Exhaustive comparison by digests; returns (evaluations, nontrivial,
-    errs, disagreements, failing)."""
+    errs, disagreements, failing, differing chunks, differences not listed).
+    The real stripper is called with file id `fid`."""
+    hfid = ["fid", str(fid)] if fid else []
     chunks = []
     K = len(alphabet) if alphabet else 6
     extra = [",".join(str(c) for c in alphabet)] if alphabet else []
@@ -139,7 +168,7 @@ def sweep(ctx, harness, model, maxlen, alphabet=None):
 
     def one(ch):
         L, P = ch
-        a = common.sh([harness, "sweep", str(L), str(P), "digest"] + extra, timeout=900)
+        a = common.sh([harness] + hfid + ["sweep", str(L), str(P), "digest"] + extra, timeout=900)
         b = common.sh([model, "sweep", "mirror", str(L), str(P), "digest"] + extra, timeout=900)
         c = common.sh([model, "sweep", "spec", str(L), str(P), "digest"] + extra, timeout=900)
         for rc, out, err in (a, b, c):
@@ -158,24 +187,35 @@ def sweep(ctx, harness, model, maxlen, alphabet=None):
             if not (a == b == c):
                 bad.append(ch)
     disagreements, failing = [], []
+    unlisted = 0          # differences found but not listed (caps), chunks not re-run: counted, never dropped silently
     for L, P in bad[:6]:
         outs = []
-        for cmd in ([harness, "sweep", str(L), str(P), "full"], [model, "sweep", "mirror", str(L), str(P), "full"],
+        for cmd in ([harness] + hfid + ["sweep", str(L), str(P), "full"], [model, "sweep", "mirror", str(L), str(P), "full"],
                     [model, "sweep", "spec", str(L), str(P), "full"]):
             rc, out, err = common.sh(cmd + extra, timeout=900)
             outs.append(out.splitlines())
+        if len({len(o) for o in outs}) != 1:
+            disagreements.append({"case": "chunk %s: the three enumerations print %s lines" % ((L, P), [len(o) for o in outs]),
+                                  "impl": "?", "model": "?"})
         for li, lm, ls in zip(*outs):
             head, ri = split_res(li)
             rm, rs = split_res(lm)[1], split_res(ls)[1]
-            if ri != rm and len(disagreements) < 20:
-                disagreements.append({"case": head, "impl": ri, "model": rm})
-            if ri != rs and len(failing) < 20:
-                why = py_checks(text_of(head), ri)
-                failing.append({"case": head, "impl": ri, "spec": rs + ((" [position clause: %s]" % why) if why else ""),
-                                "text": text_of(head)})
+            if ri != rm:
+                if len(disagreements) < 20:
+                    disagreements.append({"case": head, "impl": ri, "model": rm})
+                else:
+                    unlisted += 1
+            if ri != rs:
+                if len(failing) < 20:
+                    why = py_checks(text_of(head), ri)
+                    failing.append({"case": head, "impl": ri, "spec": rs + ((" [position clause: %s]" % why) if why else ""),
+                                    "text": text_of(head)})
+                else:
+                    unlisted += 1
+    unlisted += max(0, len(bad) - 6)
     if bad and not disagreements and not failing:
         disagreements.append({"case": "digest mismatch in chunks %s but the verbose re-run agrees" % bad[:6], "impl": "?", "model": "?"})
-    return evaluations, nontrivial, errs, disagreements, failing, len(bad)
+    return evaluations, nontrivial, errs, disagreements, failing, len(bad), unlisted
 
 
 PROGRAM_TOKENS = ("pragma circom 2.0.0 ; template T ( n ) { signal input a ; signal output b ; var x = 3 ; "
@@ -188,6 +228,25 @@ def random_texts(ctx, n):
     shapes = BLOCK_SHAPES + MULTILINE_SHAPES
     for i in range(n):
         kind = i % 4
+        if i % 499 == 5:       # long texts (2 kB .. 9 kB): long comments, many comments (the extracted lexers count
+            # offsets in unary and are quadratic: longer texts go to huge_texts / the Python lexer)
+            big = rng.choice([LONG_BLOCK, LONG_LINE + "\n", LONG_BLOCK + LONG_LINE + "\n"])
+            k = rng.randrange(100, 400)
+            parts = []
+            for j in range(k):
+                parts.append(PROGRAM_TOKENS[j % len(PROGRAM_TOKENS)])
+                r = rng.random()
+                if r < 0.1:
+                    parts.append(rng.choice(shapes))
+                elif r < 0.15:
+                    parts.append(rng.choice(LINE_SHAPES) + "\n")
+                parts.append(rng.choice([" ", "\n", "\t", ""]))
+            at = rng.randrange(0, len(parts))
+            parts.insert(at, big)
+            if rng.random() < 0.3:
+                parts.append(rng.choice(["/*", "/* abc *", LONG_BLOCK[:-3]]))      # unclosed, far from the start
+            texts.append("".join(parts))
+            continue
         if kind in (0, 1):     # token stream with comments between tokens
             k = rng.randrange(3, 40)
             start = rng.randrange(0, len(PROGRAM_TOKENS))
@@ -229,6 +288,35 @@ def random_texts(ctx, n):
             t = chr(rng.choice(INTERESTING)) + t + chr(rng.choice(INTERESTING))
         out.append(t)
     return out
+
+
+def huge_texts(rng, n):
+    """Texts of 66 kB .. 140 kB (byte offsets beyond 2^16, one comment longer than 2^16 bytes).  Too long for the
+    extracted lexers (unary offsets); the oracle for them is py_strip, the Python lexer below."""
+    out = []
+    for i in range(n):
+        pre = " ".join(PROGRAM_TOKENS[j % len(PROGRAM_TOKENS)] for j in range(rng.randrange(0, 400)))
+        mid = rng.choice([HUGE_BLOCK, HUGE_BLOCK[:-2] + "\u00e9**/", "// " + "x\u20ac " * 17000 + "\n", HUGE_BLOCK + HUGE_BLOCK])
+        post = " ".join(PROGRAM_TOKENS[j % len(PROGRAM_TOKENS)] for j in range(rng.randrange(0, 400)))
+        tail = rng.choice(["", "", "/* abc", "/*", "// end", "/**/"])
+        out.append(pre + rng.choice(["", " ", "\n"]) + mid + post + " " + tail)
+    return out
+
+
+def py_strip(text):
+    """The expected answer of the stripper computed by the independent Python
+    lexer (py_comment_mask): same line format as the harness."""
+    mask, opener = py_comment_mask(text)
+    if opener is not None:
+        o = len(text[:opener].encode("utf-8", "surrogatepass"))
+        return "err %d %d" % (o, o + 2)
+    out = []
+    for c, m in zip(text, mask):
+        if m:
+            out.extend([32] * utf8len(ord(c)))
+        else:
+            out.append(ord(c))
+    return "ok " + (" ".join(map(str, out)) if out else "-")
 
 
 def py_checks(text, res):
@@ -312,9 +400,10 @@ def gen_template(rng, idx):
     return lines
 
 
-def render(lines, between=None, eol=None):
+def render(lines, between=None, eol=None, own=None):
     """between[(i,j)] = comment text placed after token j of line i (surrounded
-    by blanks); eol[i] = comment text appended to line i."""
+    by blanks); eol[i] = comment text appended to line i; own[i] = comment text
+    put on lines of its own after line i."""
     out = []
     for i, toks in enumerate(lines):
         parts = []
@@ -326,6 +415,8 @@ def render(lines, between=None, eol=None):
         if eol and i in eol:
             s += " " + eol[i]
         out.append(s)
+        if own and i in own:
+            out.append(own[i])
     return "\n".join(out) + "\n"
 
 
@@ -379,6 +470,21 @@ def blank_file(text, per_scalar):
     return "".join(out)
 
 
+def lines_starting_inside_comment(text):
+    """Number of raw lines of `text` whose first non-blank scalar is comment
+    INTERIOR text (inside a comment, not the first scalar of its opener): the
+    lines a line-anchored scan of the raw file would misread."""
+    mask, _ = py_comment_mask(text)
+    n, pos = 0, 0
+    for l in text.split("\n"):
+        k = len(l) - len(l.lstrip(" \t\r"))
+        if k < len(l) and mask[pos + k] and (pos + k == 0 or mask[pos + k - 1] or not (l.startswith("//", k) or l.startswith("/*", k))):
+            if pos + k > 0 and mask[pos + k - 1] or not (l.startswith("//", k) or l.startswith("/*", k)):
+                n += 1
+        pos += len(l) + 1
+    return n
+
+
 def py_comments(text):
     """The comments of `text` as spans (kind, start, end, closed), end exclusive,
     kind '/' (line) or '*' (block); same lexer as py_comment_mask, written as a
@@ -425,33 +531,54 @@ def overwrite_comments(text, rng):
 
 
 def run_cli(cli, workdir, name, text):
-    path = os.path.join(workdir, name + ".circom")
-    sarif = os.path.join(workdir, name + ".sarif")
-    with open(path, "w", encoding="utf-8", newline="") as f:
-        f.write(text)
+    return run_cli_files(cli, workdir, name, {name + ".circom": text}, [name + ".circom"], flat=True)
+
+
+SARIF_DROPPED = {"unreadable": 0}     # SARIF files that could not be read: counted, and every such run is a reported problem
+
+
+def run_cli_files(cli, workdir, name, files, args, flat=False):
+    """Writes `files` (name -> text) into a directory of their own (so that
+    includes resolve), runs the CLI on the files named in `args` and returns the
+    exit status, the findings of the SARIF file (rule, level, message, regions
+    with the base name of the artifact), the standard output and the summary."""
+    d = workdir if flat else os.path.join(workdir, name)
+    os.makedirs(d, exist_ok=True)
+    for fn, text in files.items():
+        with open(os.path.join(d, fn), "w", encoding="utf-8", newline="") as f:
+            f.write(text)
+    sarif = os.path.join(d, name + ".sarif")
     try:
         os.remove(sarif)
     except OSError:
         pass
-    rc, out, err = common.sh([cli, "-l", "INFO", "-s", sarif, path], timeout=120)
+    paths = [os.path.join(d, a) for a in args]
+    rc, out, err = common.sh([cli, "-l", "INFO", "-s", sarif] + paths, timeout=120)
     findings = None
     try:
-        d = json.load(open(sarif))
+        doc = json.load(open(sarif))
         findings = []
-        for r in d["runs"][0]["results"]:
+        for r in doc["runs"][0]["results"]:
             regs = []
             for l in r.get("locations", []):
                 g = l["physicalLocation"]["region"]
-                regs.append((g.get("startLine"), g.get("startColumn"), g.get("endLine"), g.get("endColumn")))
+                reg = (g.get("startLine"), g.get("startColumn"), g.get("endLine"), g.get("endColumn"))
+                if not flat:
+                    reg = (os.path.basename(l["physicalLocation"]["artifactLocation"]["uri"]),) + reg
+                regs.append(reg)
             # messages of un-located reports name the file (`The file `<path>` does not include a version
-            # pragma`): the scratch file name is not part of the finding
-            findings.append((r.get("ruleId"), r.get("level"), r["message"]["text"].replace(path, "<file>"), tuple(regs)))
+            # pragma`): the scratch directory is not part of the finding
+            msg = r["message"]["text"]
+            for fn in files:
+                msg = msg.replace(os.path.join(d, fn), "<file>" if flat else "<%s>" % fn)
+            findings.append((r.get("ruleId"), r.get("level"), msg, tuple(regs)))
         findings.sort(key=repr)
     except (OSError, ValueError, KeyError, IndexError):
+        SARIF_DROPPED["unreadable"] += 1
         findings = None
     summary = [l for l in out.splitlines() if l.startswith("circomspect:") and ("issue" in l or "No issues" in l)]
     return {"rc": rc, "findings": findings, "summary": summary[-1] if summary else None,
-            "panic": "panicked" in err}
+            "panic": "panicked" in err, "stdout": out, "dir": d}
 
 
 def proj(res, level):
@@ -505,10 +632,28 @@ def e2e_case(cli, workdir, rng_seed, idx):
     elif idx % 3 == 1:
         head = "/* pragma circom 9.9.9; */ "
     pay_eol = {i: pay_all[(i + idx) % len(pay_all)] for i in range(len(plines))}
+    version = "9.9.9" if (idx // 2) % 2 else "2.0.0"
     if idx % 3 == 0:
-        pay_eol[0] = "// pragma circom %s;" % ("9.9.9" if idx % 2 else "2.0.0")
-    f_pay = head + render(plines, eol=pay_eol)
+        if idx % 2:
+            pay_eol[0] = "// pragma circom %s;" % version
+        else:
+            # (third audit) the only pragma of the file stands on a line of its own inside a block comment:
+            # a raw line of the file starts with `pragma circom`
+            del pay_eol[0]
+            head = ["/*\npragma circom %s;\n*/\n", "/**\n * doc\n  \tpragma circom %s;\n **/\n", "/*\r\npragma circom %s;\r\n*/\r\n",
+                    "\n/* x\npragma circom %s; */ "][(idx // 6) % 4] % version
+    # (third audit) code-like text on lines of its own inside block comments, between the lines of the file
+    pay_own = {i: OWN_LINE_SHAPES[(i + idx) % len(OWN_LINE_SHAPES)] for i in range(len(plines)) if (i + idx) % 3 == 0}
+    f_pay = head + render(plines, eol=pay_eol, own=pay_own)
     f_pay_base = render(plines)
+    pay_moves_lines = bool(pay_own) or "\n" in head
+    # (third audit) long comments: about 3 kB each, one of them > 64 kB in one template of a run
+    if idx % 4 == 1:
+        between[(len(lines) // 2, 0)] = LONG_BLOCK
+        eol2[len(lines) // 3] = LONG_LINE
+        f_mid = "/** doc **/ " + render(lines, between=between, eol=eol2)
+    if idx == 2:
+        f_mid = HUGE_BLOCK + " " + f_mid
     runs = {"base": base, "eol": f_eol, "mid": f_mid,
             "eol_blank": blank_file(f_eol, True), "eol_blank_bytes": blank_file(f_eol, False),
             "mid_blank": blank_file(f_mid, True), "mid_blank_bytes": blank_file(f_mid, False),
@@ -518,7 +663,7 @@ def e2e_case(cli, workdir, rng_seed, idx):
 
     def same(x, y, level, what):
         if proj(res[x], level) != proj(res[y], level):
-            problems.append({"relation": what, "left": x, "right": y, "left_text": runs[x], "right_text": runs[y],
+            problems.append({"relation": what, "left": x, "right": y, "left_text": runs[x], "right_text": runs[y], "level": level,
                              "left_findings": proj(res[x], level), "right_findings": proj(res[y], level)})
     ascii_only = lambda t: all(ord(c) < 128 for c in t)
     same("base", "eol", 2, "comments appended to lines do not change findings or positions")
@@ -530,7 +675,10 @@ def e2e_case(cli, workdir, rng_seed, idx):
          "comments replaced by one blank per byte: same findings, same lines (columns too when the comments are ASCII)")
     same("pay", "pay_blank", 2, "comments that contain code-like text (pragma, include, main component, template, quotes) "
                                 "replaced by blanks: same findings, same positions")
-    if head:
+    if pay_moves_lines:
+        same("pay_base", "pay", 0, "comments that contain code-like text added to a file, some on lines of their own (lines move): "
+                                   "same findings (id, level, message)")
+    elif head:
         same("pay_base", "pay", 1, "comments that contain code-like text added to a file (one of them in front of the pragma): "
                                    "same findings, same lines")
     else:
@@ -542,33 +690,214 @@ def e2e_case(cli, workdir, rng_seed, idx):
                              "left_findings": proj(r, 2)})
     nfind = len(res["base"]["findings"] or [])
     return {"idx": idx, "problems": problems, "nfindings": nfind, "runs": len(runs),
-            "rules": sorted({f[0] for f in (res["base"]["findings"] or [])})}
+            "rules": sorted({f[0] for f in (res["base"]["findings"] or [])}),
+            "own_line_pragma_only": idx % 3 == 0 and idx % 2 == 0, "own_line_payloads": len(pay_own),
+            "max_file_bytes": max(len(v.encode("utf-8")) for v in runs.values()),
+            "raw_lines_starting_with_comment_text": lines_starting_inside_comment(f_pay)}
+
+
+def where(text, off):
+    """1-based line and column (in characters, as the tool displays them) of offset `off`."""
+    return text.count("\n", 0, off) + 1, off - (text.rfind("\n", 0, off) + 1) + 1
+
+
+def unclosed_report_problems(res, fname, path, line, col, text_for_report):
+    """What the property text demands of a file that ends inside a block comment,
+    on everything the user sees: the SARIF result (error level, located at the
+    two characters of the opener, in the file that holds the opener), the exit
+    status (not 0), the standard output (an `error` header with the message of
+    that result, the location line `<path>:<line>:<col>`, a summary that counts
+    an issue).  Nothing here depends on the wording of the message."""
+    problems = []
+
+    def bad(what):
+        problems.append(dict(text_for_report, relation=what, left_findings=proj_files(res, 2), stdout=res["stdout"][-1500:], rc=res["rc"]))
+    want = (line, col, line, col + 2)
+    errors = [f for f in res["findings"] or [] if f[1] == "error"]
+    located = [f for f in errors if any(tuple(r[-4:]) == want and (len(r) == 4 or r[0] == fname) for r in f[3])]
+    if not errors:
+        bad("a block comment that is never closed is reported as an error (SARIF: no error-level result)")
+    elif not located:
+        bad("the unclosed comment is reported on the two characters of its opener, %s:%d:%d-%d:%d, in the file that holds it"
+            % ((fname,) + want))
+    if res["rc"] == 0:
+        bad("a block comment that is never closed is reported as an error: the exit status is not 0")
+    out = res["stdout"]
+    msg = located[0][2] if located else errors[0][2] if errors else None
+    heads = [l for l in out.splitlines() if l.startswith("error")]
+    if not heads or (msg is not None and not any(msg in l for l in heads)):
+        bad("the unclosed comment is DISPLAYED: standard output has an `error` header carrying the message of the report")
+    if "%s:%d:%d" % (path, line, col) not in out:
+        bad("the unclosed comment is DISPLAYED at its opener: standard output has the location line %s:%d:%d" % (fname, line, col))
+    if res["summary"] is None or "No issues" in res["summary"] or "issue" not in res["summary"]:
+        bad("the summary line counts the unclosed comment as an issue (never `No issues found.`)")
+    return problems
+
+
+def proj_files(res, level):
+    """level 2: everything (artifact names included); 0: id, level, message only."""
+    if res["findings"] is None:
+        return ("no-sarif", res["rc"], res["summary"])
+    fs = res["findings"] if level == 2 else sorted(((a, b, c) for a, b, c, d in res["findings"]), key=repr)
+    return (fs, res["rc"], res["summary"])
+
+
+UNCLOSED_TAILS = ["/* abc", "/*", "/* abc *", "/** doc **", "/*/", "/* \u00e9\n more", "/* x\n", "/* /* x", "/* // x\n*"]
 
 
 def e2e_unclosed(cli, workdir, rng, idx):
     """A file that ends inside a block comment must be reported as an error at
-    the line:column of the opener (never 'No issues found')."""
+    the line:column of the opener (never 'No issues found'): SARIF, exit status
+    and standard output are all asserted."""
     lines = gen_template(rng, idx)
-    tail = rng.choice(["/* abc", "/*", "/* abc *", "/** doc **", "/*/", "/* é\n more", "/* x\n"])
-    prefix_comment = rng.choice(["", "/* éé */ ", "// €\n", "/***/"])
-    text = prefix_comment + render(lines) + rng.choice(["", "  ", "é "]) + tail
-    res = run_cli(cli, workdir, "u%d" % idx, text)
-    off = text.rindex(tail)
-    line = text.count("\n", 0, off) + 1
-    col = off - (text.rfind("\n", 0, off) + 1) + 1      # in characters, as the tool displays columns
-    problems = []
-    ok = False
-    for f in res["findings"] or []:
-        if f[1] == "error" and "nterminated comment" in f[2]:
-            ok = any(r[0] == line and r[1] == col for r in f[3])
-            if not ok:
-                problems.append({"relation": "unclosed comment reported at the line:column of its opener (%d:%d)" % (line, col),
-                                 "left": "unclosed", "left_text": text, "left_findings": proj(res, 2)})
-            ok = True
-    if not ok:
-        problems.append({"relation": "a block comment that is never closed is reported as an error",
-                         "left": "unclosed", "left_text": text, "left_findings": proj(res, 2)})
+    tail = rng.choice(UNCLOSED_TAILS)
+    prefix_comment = rng.choice(["", "/* \u00e9\u00e9 */ ", "// \u20ac\n", "/***/"])
+    text = prefix_comment + render(lines) + rng.choice(["", "  ", "\u00e9 "]) + tail
+    if idx % 7 == 3:
+        text = LONG_BLOCK + "\n" + text
+    name = "u%d" % idx
+    res = run_cli(cli, workdir, name, text)
+    line, col = where(text, text.rindex(tail))
+    problems = unclosed_report_problems(res, name + ".circom", os.path.join(workdir, name + ".circom"), line, col,
+                                        {"left": "unclosed", "left_text": text, "kind": "unclosed", "line": line, "col": col})
     return {"idx": idx, "problems": problems}
+
+
+def project_unclosed_problems(harness, d, texts, args, holder, off, rep):
+    """In process, without any hook and without the command-line filters: the
+    report collection returned by `parser::parse_files` for the project must
+    contain an error-level report whose ONE primary label is on the bytes
+    off..off+2 of the opener IN THE FILE THAT HOLDS IT (path of the label's
+    file id), and that file contributes no definition (it is not analysed as if
+    it were complete).  Wording of the message not read."""
+    line = json.dumps({"files": [os.path.join(d, a) for a in args]})
+    raw = common.run_lines(harness, ["project"], [line])[0]
+    try:
+        ans = json.loads(raw)
+    except ValueError:
+        ans = {"unreadable": raw[:300]}
+    problems = []
+
+    def bad(what):
+        problems.append(dict(rep, kind="project-unclosed", relation=what, off=off,
+                             left_findings={k: ans.get(k) for k in ("mode", "files", "reports", "defs", "panic", "unreadable") if k in ans}))
+    hpath = os.path.realpath(os.path.join(d, holder))
+    for r in ans.get("reports", []):
+        for l in r["primary"]:
+            l["path"] = os.path.realpath(l["path"]) if l.get("path") else l.get("path")
+    for dd in ans.get("defs", []):
+        dd["path"] = os.path.realpath(dd["path"]) if dd.get("path") else dd.get("path")
+    errors = [r for r in ans.get("reports", []) if r["level"] == "error"]
+    hit = [r for r in errors if len(r["primary"]) == 1 and r["primary"][0]["path"] == hpath
+           and (r["primary"][0]["start"], r["primary"][0]["end"]) == (off, off + 2)]
+    if "reports" not in ans:
+        bad("parse_files answers (no panic) on a project with a file that ends inside a block comment")
+    elif not hit:
+        bad("parse_files reports the unclosed comment of %s as an error whose one primary label is on the bytes %d..%d of its opener "
+            "in that file" % (holder, off, off + 2))
+    if any(dd["path"] == hpath for dd in ans.get("defs", [])):
+        bad("a file that ends inside a block comment contributes no definitions (it is not analysed as if it were complete)")
+    return problems, ans
+
+
+def rename_lib(lines):
+    """The template of gen_template as a library file: T -> L, f -> g, no main component."""
+    ren = {"T": "L", "f": "g"}
+    return [[ren.get(t, t) for t in l] for l in lines if l[:2] != ["component", "main"]]
+
+
+def e2e_files(cli, harness, workdir, rng_seed, idx):
+    """(third audit) Projects of TWO files: main.circom includes lib.circom and
+    instantiates its template L.  Scenarios, by idx % 4:
+      0  an unclosed comment in a file that is named on the command line together
+         with the other one (so the file that ends inside the comment has a
+         non-zero file id in half of the cases): reported IN THAT FILE at its opener;
+      1  an unclosed comment in lib.circom, which is only included.  The command
+         line does not display reports located solely in included files (C03 is
+         an iff, C19: included-only files produce no findings of their own), so
+         "reported as an error" is checked where the report is produced: in
+         process, on the unfiltered answer of parser::parse_files (error report
+         on the opener in THAT file, no definitions from the file); what the CLI
+         prints there (`No issues found.`, exit 0) is counted as an observation;
+      2  closed comments (all shapes, code-like payloads on lines of their own) in
+         both files, both named: findings(F) == findings(F with comments blanked),
+         artifact names and positions included;
+      3  the same with only main.circom named: comments in an included file do
+         not change what is reported."""
+    import random
+    rng = random.Random(rng_seed)
+    main = gen_template(rng, idx)
+    if main[-1][:2] != ["component", "main"]:
+        main.append(["component", "main", "=", "T", "(", "2", ")", ";"])
+    lib = rename_lib(gen_template(rng, idx + 1))
+    close = max(i for i, l in enumerate(main) if l == ["}"])
+    main[close:close] = [["component", "l", "=", "L", "(", "2", ")", ";"], ["l", ".", "a", "<==", "a", ";"], ["l", ".", "c", "<==", "c", ";"]]
+    main.insert(1, ["include", '"lib.circom"', ";"])
+    scen = idx % 4
+    problems = []
+    runs = 0
+    if scen in (0, 1):
+        tail = rng.choice(UNCLOSED_TAILS)
+        holder = "lib.circom" if scen == 1 or (idx // 4) % 2 == 0 else "main.circom"
+        texts = {"main.circom": render(main), "lib.circom": render(lib)}
+        pre = rng.choice(["", "/* \u00e9 */\n", "// x\n"])
+        texts[holder] = pre + texts[holder] + rng.choice(["", "  ", "\u00e9 "]) + tail
+        if scen == 1:
+            args = ["main.circom"]
+        else:
+            other = "main.circom" if holder == "lib.circom" else "lib.circom"
+            args = [other, holder] if (idx // 8) % 2 == 0 else [holder, other]
+        name = "f%d" % idx
+        res = run_cli_files(cli, workdir, name, texts, args)
+        runs += 1
+        line, col = where(texts[holder], texts[holder].rindex(tail))
+        rep = {"left": "project", "files": texts, "args": args, "kind": "unclosed-files", "holder": holder, "line": line, "col": col,
+               "left_text": "".join("--- %s\n%s\n" % kv for kv in sorted(texts.items())) + "--- command line: " + " ".join(args)}
+        off = len(texts[holder][:texts[holder].rindex(tail)].encode("utf-8"))
+        ps, ans = project_unclosed_problems(harness, res["dir"], texts, args, holder, off, rep)
+        problems += ps
+        cli_silent = None
+        if scen == 0:
+            problems += unclosed_report_problems(res, holder, os.path.join(res["dir"], holder), line, col, rep)
+        else:
+            # observation only (coordinator's reading, third audit): displayed or not
+            cli_silent = not unclosed_report_problems(res, holder, os.path.join(res["dir"], holder), line, col, rep) == []
+        if res["panic"] or res["findings"] is None:
+            problems.append(dict(rep, relation="the tool ran to completion and wrote its SARIF file", left_findings=proj_files(res, 2)))
+    else:
+        shapes = BLOCK_SHAPES + MULTILINE_SHAPES
+
+        def commented(lines_):
+            between = {(i, j): rng.choice(shapes) for i, toks in enumerate(lines_) for j in range(len(toks))
+                       if rng.random() < 0.15 and not (toks[j] == "include" or toks[j].startswith('"'))}
+            eol = {i: rng.choice(LINE_SHAPES + BLOCK_SHAPES) for i in range(len(lines_)) if rng.random() < 0.3}
+            own = {i: rng.choice(OWN_LINE_SHAPES) for i in range(len(lines_)) if rng.random() < 0.2}
+            return render(lines_, between=between, eol=eol, own=own)
+        texts = {"main.circom": commented(main), "lib.circom": commented(lib)}
+        blank = {k: blank_file(v, True) for k, v in texts.items()}
+        args = ["main.circom", "lib.circom"] if scen == 2 else ["main.circom"]
+        if scen == 2 and (idx // 4) % 2:
+            args.reverse()
+        ra = run_cli_files(cli, workdir, "f%d" % idx, texts, args)
+        rb = run_cli_files(cli, workdir, "f%d_blank" % idx, blank, args)
+        runs += 2
+        if proj_files(ra, 2) != proj_files(rb, 2):
+            problems.append({"relation": "project of two files (%s named on the command line): comments of both files replaced by blanks: "
+                                         "same findings, same files, same positions" % " and ".join(args),
+                             "left": "project", "right": "project with comments blanked", "kind": "files-metamorphic",
+                             "files": texts, "right_files": blank, "args": args,
+                             "left_text": "".join("--- %s\n%s\n" % kv for kv in sorted(texts.items())),
+                             "right_text": "".join("--- %s\n%s\n" % kv for kv in sorted(blank.items())),
+                             "left_findings": proj_files(ra, 2), "right_findings": proj_files(rb, 2)})
+        for r, t in ((ra, texts), (rb, blank)):
+            if r["panic"] or r["findings"] is None:
+                problems.append({"relation": "the tool ran to completion and wrote its SARIF file", "left": "project", "kind": "files-ran",
+                                 "files": t, "args": args, "left_text": "".join("--- %s\n%s\n" % kv for kv in sorted(t.items())),
+                                 "left_findings": proj_files(r, 2)})
+    return {"idx": idx, "scenario": scen, "problems": problems, "runs": runs,
+            "included_only_not_displayed": bool(scen == 1 and cli_silent),
+            "label_file_id": next((r["primary"][0]["file"] for r in (ans.get("reports", []) if scen in (0, 1) else [])
+                                   if r["level"] == "error" and r["primary"]), None) if scen in (0, 1) else None}
 
 
 def e2e_strings(cli, workdir, rng_seed, idx):
@@ -588,7 +917,22 @@ def e2e_strings(cli, workdir, rng_seed, idx):
     runs = {"str": text}
     if all(c for _, _, _, c in spans):
         runs["str_blank"] = blank_file(text, True)
+    # (third audit) an include path that contains a comment with white space other than blanks: the path shown in the
+    # `Failed to open file` message is the pre-processed text of the string literal, so a stripper that keeps TAB / VT /
+    # FF inside comments shows another path than for the file with the comment replaced by blanks
+    ws = ["\t", "\x0b", "\x0c", " \t "][idx % 4]
+    inc = render(lines[:1]) + 'include "no/*%s*/such.circom";\n' % ws + render(lines[1:])
+    runs["inc"] = inc
+    runs["inc_blank"] = blank_file(inc, False)
     res = {k: run_cli(cli, workdir, "s%d_%s" % (idx, k), v) for k, v in runs.items()}
+    if proj(res["inc"], 2) != proj(res["inc_blank"], 2):
+        problems.append({"relation": "a comment with white space (TAB, VT, FF) inside the string literal of an include path replaced by "
+                                     "blanks: same findings (the path in the message included), same positions", "level": 2,
+                         "left": "inc", "right": "inc_blank", "left_text": inc, "right_text": runs["inc_blank"],
+                         "left_findings": proj(res["inc"], 2), "right_findings": proj(res["inc_blank"], 2)})
+    if not any("no" in f[2] and "such.circom" in f[2] for f in res["inc"]["findings"] or []):
+        problems.append({"relation": "generator: the include of a missing file is reported with its path", "left": "inc", "left_text": inc,
+                         "left_findings": proj(res["inc"], 2)})
     if "str_blank" in runs:
         if proj(res["str"], 2) != proj(res["str_blank"], 2):
             problems.append({"relation": "a comment opened inside a string literal (string literals are not special for the comment "
@@ -596,14 +940,12 @@ def e2e_strings(cli, workdir, rng_seed, idx):
                              "left": "str", "right": "str_blank", "left_text": text, "right_text": runs["str_blank"],
                              "left_findings": proj(res["str"], 2), "right_findings": proj(res["str_blank"], 2)})
     else:
-        off = spans[-1][1]
-        line = text.count("\n", 0, off) + 1
-        col = off - (text.rfind("\n", 0, off) + 1) + 1
-        hit = [f for f in res["str"]["findings"] or [] if f[1] == "error" and "nterminated comment" in f[2]]
-        if not hit or not any(r[0] == line and r[1] == col for f in hit for r in f[3]):
-            problems.append({"relation": "a `/*` inside a string literal that no `*/` follows is an unclosed comment, reported at "
-                                         "its opener (%d:%d)" % (line, col),
-                             "left": "str", "left_text": text, "left_findings": proj(res["str"], 2)})
+        line, col = where(text, spans[-1][1])
+        problems += unclosed_report_problems(
+            res["str"], "s%d_str.circom" % idx, os.path.join(workdir, "s%d_str.circom" % idx), line, col,
+            {"left": "str", "left_text": text, "kind": "unclosed", "line": line, "col": col,
+             "note": "a `/*` inside a string literal that no `*/` follows is an unclosed comment (string literals are not special "
+                     "for the comment lexer)"})
     for k, r in res.items():
         if r["panic"] or r["findings"] is None:
             problems.append({"relation": "the tool ran to completion and wrote its SARIF file", "left": k, "left_text": runs[k],
@@ -643,12 +985,16 @@ def entry_sources(rng, n_templates, n_streams):
         text = render(lines, between=between, eol=eol)
         r = rng.random()
         if r < 0.3:
-            text = rng.choice(PAYLOAD_BLOCK + PAYLOAD_LINE[:1] + ["/** doc **/", "/***/"]) + \
+            text = rng.choice(PAYLOAD_BLOCK + PAYLOAD_LINE[:1] + OWN_LINE_SHAPES + ["/** doc **/", "/***/"]) + \
                 (" " if rng.random() < 0.5 else "\n") + text
         if rng.random() < 0.2:
             at = rng.randrange(1, len(lines))
             parts = text.split("\n")
             parts.insert(min(at, len(parts) - 1), rng.choice(STRING_LINES))
+            text = "\n".join(parts)
+        if rng.random() < 0.01:
+            parts = text.split("\n")
+            parts.insert(rng.randrange(0, len(parts)), rng.choice([LONG_BLOCK, LONG_LINE]))
             text = "\n".join(parts)
         r = rng.random()
         if r < 0.15:
@@ -673,10 +1019,13 @@ def entry_sources(rng, n_templates, n_streams):
     return out
 
 
-UNTERMINATED_HEX = "x" + "Unterminated comment.".encode().hex()
+def report_message(answer):
+    """The message field (hex) of an `error (report <level> <id> <name> <message> ...` answer of the harness."""
+    f = answer.split()
+    return f[5] if len(f) > 5 and f[0] == "error" and f[1] == "(report" else None
 
 
-def parse_entry(ctx, harness, model, n_templates, n_streams):
+def parse_entry(ctx, harness, model, n_templates, n_streams, fid=0):
     """`parser::verif::parse_source` (= parser_logic::parse_file) on s, on s with
     its comments blanked (computed by the extracted reference side:
     LexSpec.blank_comments) and on s with its comment interiors overwritten by
@@ -687,7 +1036,9 @@ def parse_entry(ctx, harness, model, n_templates, n_streams):
     label ranges — must be identical.  When the image is an error, the answer
     must be the unclosed-comment report on the range the reference lexer gives."""
     rng = ctx.rng
-    texts = [t for t in entry_sources(rng, n_templates, n_streams) if not has_surrogate(t)]
+    texts0 = entry_sources(rng, n_templates, n_streams)
+    texts = [t for t in texts0 if not has_surrogate(t)]
+    dropped_surrogates = len(texts0) - len(texts)
     over = [overwrite_comments(t, rng) for t in texts]
     lines = [line_of(t) for t in texts]
     olines = [line_of(t) for t in over]
@@ -695,13 +1046,16 @@ def parse_entry(ctx, harness, model, n_templates, n_streams):
     spec = [split_res(x)[1] for x in common.run_lines(model, ["spec"], lines, shards=common.NPROC)]
     spec_o = [split_res(x)[1] for x in common.run_lines(model, ["spec"], olines, shards=common.NPROC)]
     spec_b = [split_res(x)[1] for x in common.run_lines(model, ["spec"], blines, shards=common.NPROC)]
-    ast = [split_res(x)[1] for x in common.run_lines(harness, ["ast"], lines, shards=common.NPROC)]
-    ast_o = [split_res(x)[1] for x in common.run_lines(harness, ["ast"], olines, shards=common.NPROC)]
-    ast_b = [split_res(x)[1] for x in common.run_lines(harness, ["ast"], blines, shards=common.NPROC)]
+    hargs = (["fid", str(fid)] if fid else []) + ["ast"]
+    ast = [split_res(x)[1] for x in common.run_lines(harness, hargs, lines, shards=common.NPROC)]
+    ast_o = [split_res(x)[1] for x in common.run_lines(harness, hargs, olines, shards=common.NPROC)]
+    ast_b = [split_res(x)[1] for x in common.run_lines(harness, hargs, blines, shards=common.NPROC)]
+    unclosed_messages, other_messages = {}, {}
+    problems_total = 0
     problems, machinery = [], []
     stats = {"sources": len(texts), "templates": n_templates, "token_streams": n_streams, "parsed": 0, "parsed_with_comment": 0, "syntax_error": 0, "unclosed": 0, "panic": 0,
              "overwritten_differs": 0, "blanked_differs": 0, "with_version": 0, "with_main": 0, "with_include": 0,
-             "equal_image_pairs_checked": 0, "asts_compared": 0, "hook": "parser::verif::parse_source (= parser_logic::parse_file), harness `preprocess ast`"}
+             "equal_image_pairs_checked": 0, "asts_compared": 0, "sources_dropped_for_surrogates": dropped_surrogates, "hook": "parser::verif::parse_source (= parser_logic::parse_file), harness `preprocess ast`"}
     for i, t in enumerate(texts):
         if spec_o[i] != spec[i]:
             machinery.append({"what": "overwrite_comments changed the lexer image", "text": t, "variant": over[i]})
@@ -730,18 +1084,44 @@ def parse_entry(ctx, harness, model, n_templates, n_streams):
             stats["syntax_error"] += 1
         for other, oa, name in ((over[i], ast_o[i], "its comments overwritten with code-like text"),
                                 (text_of(blines[i]), ast_b[i], "its comments replaced by blanks")):
-            if oa != ast[i] and len(problems) < 20:
-                problems.append({"relation": "parse entry point: a source and the same source with %s (same comment-lexer image) "
-                                             "give the same AST / the same error" % name,
-                                 "left": "source", "right": "variant", "left_text": t, "right_text": other,
-                                 "left_findings": ast[i][:1500], "right_findings": oa[:1500]})
+            if oa != ast[i]:
+                problems_total += 1
+                if len(problems) < 20:
+                    problems.append({"relation": "parse entry point: a source and the same source with %s (same comment-lexer image) "
+                                                 "give the same AST / the same error" % name, "fid": fid,
+                                     "left": "source", "right": "variant", "left_text": t, "right_text": other,
+                                     "left_findings": ast[i][:1500], "right_findings": oa[:1500]})
+        msg = report_message(ast[i])
         if spec[i].startswith("err"):
             f = spec[i].split()
-            want = "(p %s %s 0 " % (f[1], f[2])
-            if not (ast[i].startswith("error (report error ") and UNTERMINATED_HEX in ast[i] and want in ast[i]) and len(problems) < 20:
-                problems.append({"relation": "parse entry point: a source that ends inside a block comment is answered with the "
-                                             "unclosed-comment error on the bytes %s..%s of its opener" % (f[1], f[2]),
-                                 "left": "source", "left_text": t, "left_findings": ast[i][:1500]})
+            # one primary label, on the two bytes of the opener, in the file the hook was called for (third audit:
+            # the file id is not 0; the wording of the message is not read)
+            want = "(p %s %s %d " % (f[1], f[2], fid)
+            if msg is not None:
+                unclosed_messages.setdefault(msg, t)
+            if not (ast[i].startswith("error (report error ") and want in ast[i] and ast[i].count("(p ") == 1):
+                problems_total += 1
+                if len(problems) < 20:
+                    problems.append({"relation": "parse entry point: a source that ends inside a block comment is answered with an "
+                                                 "error report whose one primary label is on the bytes %s..%s of its opener in file %d"
+                                                 % (f[1], f[2], fid), "fid": fid,
+                                     "left": "source", "left_text": t, "left_findings": ast[i][:1500]})
+        elif msg is not None:
+            other_messages.setdefault(msg, t)
+    # the unclosed-comment report is ONE kind of report of its own: the same message for every unclosed comment, and
+    # not the message of any syntax error (whatever the wording is)
+    if len(unclosed_messages) > 1 or set(unclosed_messages) & set(other_messages):
+        problems_total += 1
+        m = sorted(unclosed_messages)[-1]
+        problems.append({"relation": "parse entry point: every source that ends inside a block comment gets the same report, which no "
+                                     "syntax error gets (messages seen for unclosed comments: %s; also seen for other errors: %s)"
+                                     % ([bytes.fromhex(x[1:]).decode("utf-8", "replace") for x in sorted(unclosed_messages)],
+                                        [bytes.fromhex(x[1:]).decode("utf-8", "replace") for x in sorted(set(unclosed_messages) & set(other_messages))]),
+                         "fid": fid, "left": "source", "left_text": unclosed_messages[m], "left_findings": "message " + m})
+    stats["unclosed_messages_seen"] = [bytes.fromhex(x[1:]).decode("utf-8", "replace") for x in sorted(unclosed_messages)]
+    stats["problems_total"] = problems_total
+    stats["file_id"] = fid
+    stats["max_source_bytes"] = max((len(t.encode("utf-8")) for t in texts), default=0)
     sample = next((a for a, t in zip(ast, texts) if a.startswith("ast") and py_comments(t)), ast[0] if ast else "")
     return problems, machinery, stats, sample[:400]
 
@@ -766,6 +1146,14 @@ def run(ctx, proofs):
     model = common.build_model("preprocess")
     cli = common.build_cli()
     disagreements, failing = [], []
+    import time
+    stage = {}
+    t_last = [time.time()]
+
+    def lap(name):
+        now = time.time()
+        stage[name] = round(now - t_last[0], 1)
+        t_last[0] = now
 
     # (b) regression corpus first
     corpus = load_corpus()
@@ -781,56 +1169,119 @@ def run(ctx, proofs):
             if ia != mm:
                 disagreements.append({"case": line_of(c["text"]), "impl": ia, "model": mm})
 
-    # (a) exhaustive small strings
+    # the file id handed to the hooks (third audit: it was 0 everywhere); drawn per run, never 0
+    fid = ctx.rng.randrange(1, 9)
+    hfid = ["fid", str(fid)]
+
+    # (a) exhaustive small strings; the alphabets depend on the seed (third audit): / * newline, backslash or blank, two more of POOL1
     maxlen = 8 if quick else 10
-    ev_sweep, nontrivial_sweep, errs_sweep, dis, fail, badchunks = sweep(ctx, harness, model, maxlen)
+    bs_or_blank = ctx.rng.choice([92, 32])
+    alphabet1 = [47, 42, 10, bs_or_blank] + ctx.rng.sample([c for c in POOL1 if c != bs_or_blank], 2)
+    ev_sweep, nontrivial_sweep, errs_sweep, dis, fail, badchunks, unlisted = sweep(ctx, harness, model, maxlen, alphabet1, fid=fid)
     disagreements += dis
     failing += fail
-    # (a') second exhaustive sweep: wider alphabet, shorter strings
+    # (a') second exhaustive sweep: wider alphabet (/ * newline backslash blank quote + four of POOL2), shorter strings
     maxlen2 = 6 if quick else 7
-    ev_sweep2, nontrivial_sweep2, errs_sweep2, dis2, fail2, badchunks2 = sweep(ctx, harness, model, maxlen2, ALPHABET2)
+    alphabet2 = [47, 42, 10, 92, 32, 34] + ctx.rng.sample(POOL2, 4)
+    ev_sweep2, nontrivial_sweep2, errs_sweep2, dis2, fail2, badchunks2, unlisted2 = sweep(ctx, harness, model, maxlen2, alphabet2, fid=fid)
     disagreements += dis2
     failing += fail2
     badchunks += badchunks2
+    # (a'') third sweep: / * and one scalar of POOL3, long strings (runs of stars and slashes around ONE other scalar)
+    maxlen3 = 12 if quick else 14
+    alphabet3 = [47, 42, ctx.rng.choice(POOL3)]
+    ev_sweep3, nontrivial_sweep3, errs_sweep3, dis3, fail3, badchunks3, unlisted3 = sweep(ctx, harness, model, maxlen3, alphabet3, fid=fid)
+    disagreements += dis3
+    failing += fail3
+    badchunks += badchunks3
+    unlisted += unlisted2 + unlisted3
 
+    lap("sweeps")
     # (c) seeded random longer texts
-    texts = [t for t in random_texts(ctx, 20000 if quick else 200000) if not has_surrogate(t)]
+    texts0 = random_texts(ctx, 20000 if quick else 200000)
+    texts = [t for t in texts0 if not has_surrogate(t)]
+    dropped_surrogates = len(texts0) - len(texts)      # U+D800..DFFF cannot be in a Rust str: counted, not hidden
+    # the long texts first in their shard would serialise: spread them
+    ctx.rng.shuffle(texts)
     lines = [line_of(t) for t in texts]
-    ri = common.run_lines(harness, [], lines, shards=common.NPROC)
+    ri = common.run_lines(harness, hfid, lines, shards=common.NPROC)
     rm = common.run_lines(model, ["mirror"], lines, shards=common.NPROC)
     rs = common.run_lines(model, ["spec"], lines, shards=common.NPROC)
     rnd_nontrivial = set()
     rnd_err = 0
     pyfail = []
+    if not (len(ri) == len(rm) == len(rs) == len(lines)):
+        disagreements.append({"case": "random texts: %d lines in, %d / %d / %d lines out (implementation / mirror / reference)"
+                                      % (len(lines), len(ri), len(rm), len(rs)), "impl": "?", "model": "?"})
     for t, l, a, m, s in zip(texts, lines, ri, rm, rs):
         ia, mm, ss = split_res(a)[1], split_res(m)[1], split_res(s)[1]
-        if ia != mm and len(disagreements) < 40:
-            disagreements.append({"case": l, "impl": ia, "model": mm})
-        if ia != ss and len(failing) < 40:
-            failing.append({"case": l, "impl": ia, "spec": ss, "text": t})
+        if ia != mm:
+            if len(disagreements) < 40:
+                disagreements.append({"case": l, "impl": ia, "model": mm})
+            else:
+                unlisted += 1
+        if ia != ss:
+            if len(failing) < 40:
+                failing.append({"case": l, "impl": ia, "spec": ss, "text": t})
+            else:
+                unlisted += 1
         why = py_checks(t, ia)
-        if why and len(pyfail) < 10:
-            pyfail.append({"case": l, "impl": ia, "spec": "position clause: " + why, "text": t})
+        if why:
+            if len(pyfail) < 10:
+                pyfail.append({"case": l, "impl": ia, "spec": "position clause: " + why, "text": t})
+            else:
+                unlisted += 1
         if ia.startswith("err"):
             rnd_err += 1
             rnd_nontrivial.add(l)
         elif ia[3:] != l:
             rnd_nontrivial.add(l)
     failing += pyfail
+    # third oracle, independent of Coq: the Python lexer.  For the unclosed comments this evaluates the clause of
+    # C05_unclosed_comment_location_is_byte_offset_of_opener per case: the reported offset is that of the first opener
+    # whose prefix ends outside every comment (py_comment_mask scans from the start and records exactly that opener)
+    py_confirmed_unclosed = py_confirmed = 0
+    for t, l, a in zip(texts, lines, ri):
+        ia = split_res(a)[1]
+        want = py_strip(t)
+        if ia == want:
+            py_confirmed += 1
+            py_confirmed_unclosed += 1 if ia.startswith("err") else 0
+        elif len(failing) < 40:
+            failing.append({"case": l, "impl": ia, "spec": want + " (Python lexer py_strip)", "text": t})
+        else:
+            unlisted += 1
     # blank_invariant on the real function: the file with its comments blanked
     # out (computed by the reference side) gives the same parser input
     rb = common.run_lines(model, ["blank"], lines, shards=common.NPROC)
     blines = [split_res(b)[1][3:] for b in rb]
-    rib = common.run_lines(harness, [], blines, shards=common.NPROC)
+    rib = common.run_lines(harness, hfid, blines, shards=common.NPROC)
     blank_checked = 0
     for t, l, a, bl, ab in zip(texts, lines, ri, blines, rib):
         ia, iab = split_res(a)[1], split_res(ab)[1]
         if bl != l:
             blank_checked += 1
-        if ia != iab and len(failing) < 40:
-            failing.append({"case": l, "impl": "on the text with comments blanked (%s): %s" % (bl, iab),
-                            "spec": "same as on the text itself: " + ia, "text": t})
+        if ia != iab:
+            if len(failing) < 40:
+                failing.append({"case": l, "impl": "on the text with comments blanked (%s): %s" % (bl, iab),
+                                "spec": "same as on the text itself: " + ia, "text": t})
+            else:
+                unlisted += 1
+    # texts beyond 2^16 bytes: implementation vs the Python lexer (the extracted lexers are quadratic in the offset)
+    huge = huge_texts(ctx.rng, 6 if quick else 24)
+    hlines = [line_of(t) for t in huge]
+    rh = common.run_lines(harness, hfid, hlines, shards=common.NPROC)
+    for t, l, a in zip(huge, hlines, rh):
+        ia = split_res(a)[1]
+        want = py_strip(t)
+        why = py_checks(t, ia)
+        if ia != want or why:
+            short = "%d scalars: %r ... %r" % (len(t), t[:60], t[-60:])
+            failing.append({"case": l, "impl": ia[:200] + " ...", "text": short,
+                            "spec": (want[:200] + " ... (Python lexer py_strip; text of %d bytes)" % len(t.encode("utf-8")))
+                            + (" [position clause: %s]" % why if why else "")})
 
+    lap("random_and_huge_texts")
     # end to end
     n_e2e = 100 if quick else 400
     seeds = [ctx.rng.randrange(1 << 30) for _ in range(n_e2e)]
@@ -840,11 +1291,18 @@ def run(ctx, proofs):
     sseeds = [ctx.rng.randrange(1 << 30) for _ in range(2 * len(STRING_LINES) if quick else 6 * len(STRING_LINES))]
     with concurrent.futures.ThreadPoolExecutor(max_workers=common.NPROC) as ex:
         strings = list(ex.map(lambda iv: e2e_strings(cli, ctx.work, iv[1], iv[0]), enumerate(sseeds)))
-    e2e_problems = [p for r in e2e + unclosed + strings for p in r["problems"]]
+    lap("e2e_single_file")
+    # (third audit) projects of two files: unclosed comment in the second input / in an included file, comments in both files
+    fseeds = [ctx.rng.randrange(1 << 30) for _ in range(32 if quick else 128)]
+    with concurrent.futures.ThreadPoolExecutor(max_workers=common.NPROC) as ex:
+        projects = list(ex.map(lambda iv: e2e_files(cli, harness, ctx.work, iv[1], iv[0]), enumerate(fseeds)))
+    e2e_problems = [p for r in e2e + unclosed + strings + projects for p in r["problems"]]
 
+    lap("e2e_two_files")
     # parse entry point (AST level)
     entry_problems, entry_machinery, entry_stats, entry_sample = parse_entry(
-        ctx, harness, model, 1500 if quick else 8000, 3000 if quick else 20000)
+        ctx, harness, model, 1500 if quick else 8000, 3000 if quick else 20000, fid=fid)
+    lap("parse_entry")
     with_findings = sum(1 for r in e2e if r["nfindings"] > 0)
     rules = sorted({x for r in e2e for x in r["rules"]})
 
@@ -855,6 +1313,9 @@ def run(ctx, proofs):
                       {"input": f["case"], "impl": f["impl"], "spec": f["spec"]})
     for p in e2e_problems[:5]:
         ctx.violation("end-to-end: %s — violated" % p["relation"], {"e2e": p, "impl": p.get("left_findings"), "spec": p.get("right_findings")})
+    if SARIF_DROPPED["unreadable"] and not e2e_problems:
+        ctx.violation("C05 machinery: %d SARIF files could not be read but no run was reported" % SARIF_DROPPED["unreadable"],
+                      {"broken": "C05 e2e SARIF reader"}, no_input=True)
     if with_findings < n_e2e * 0.9:
         ctx.violation("generator degenerate: only %d of %d templates produce findings" % (with_findings, n_e2e),
                       {"broken": "C05 e2e generator"}, no_input=True)
@@ -881,31 +1342,77 @@ def run(ctx, proofs):
                           {"broken": "props/C05.v", "failures": proofs["failures"]}, no_input=True)
 
     ctx.coverage.update({
-        "evaluations": ev_sweep + ev_sweep2 + len(lines) + len(clines),
-        "distinct_nontrivial": nontrivial_sweep + nontrivial_sweep2 + len(rnd_nontrivial),
-        "exhaustive_part_wide": "all %d strings of length <= %d over the 10 scalars %s (1-, 2-, 3- and 4-byte scalars, NUL, TAB, CR, "
-                                "BOM next to the comment characters); %d of them contain a comment, %d end inside a block comment"
-                                % (ev_sweep2, maxlen2, ["U+%04X" % c for c in ALPHABET2], nontrivial_sweep2, errs_sweep2),
+        "evaluations": ev_sweep + ev_sweep2 + ev_sweep3 + len(lines) + len(clines) + len(huge),
+        "distinct_nontrivial": nontrivial_sweep + nontrivial_sweep2 + nontrivial_sweep3 + len(rnd_nontrivial),
+        "stage_seconds": stage,
+        "seed_dependent": {"file_id_handed_to_the_hooks": fid, "alphabet_1": ["U+%04X" % c for c in alphabet1],
+                           "alphabet_2": ["U+%04X" % c for c in alphabet2], "alphabet_3": ["U+%04X" % c for c in alphabet3],
+                           "pools": {"1": ["U+%04X" % c for c in POOL1], "2": ["U+%04X" % c for c in POOL2], "3": ["U+%04X" % c for c in POOL3]}},
+        "exhaustive_part_wide": "all %d strings of length <= %d over the 10 scalars %s (/ * newline backslash blank double-quote + four "
+                                "scalars drawn from pool 2 with the seed); %d of them contain a comment, %d end inside a block comment"
+                                % (ev_sweep2, maxlen2, ["U+%04X" % c for c in alphabet2], nontrivial_sweep2, errs_sweep2),
+        "exhaustive_part_long": "all %d strings of length <= %d over the 3 scalars %s (/ * and one scalar drawn from pool 3 with the "
+                                "seed); %d of them contain a comment, %d end inside a block comment"
+                                % (ev_sweep3, maxlen3, ["U+%04X" % c for c in alphabet3], nontrivial_sweep3, errs_sweep3),
+        "longest_random_text_bytes": max((len(t.encode("utf-8")) for t in texts), default=0),
+        "random_texts_longer_than_1600_bytes": sum(1 for t in texts if len(t.encode("utf-8")) > 1600),
+        "huge_texts": {"count": len(huge), "bytes": [len(t.encode("utf-8")) for t in huge],
+                       "oracle": "Python lexer py_strip + position clauses (the extracted lexers count offsets in unary: quadratic)"},
+        "dropped": {"random_texts_with_surrogates_not_run": dropped_surrogates,
+                    "differences_found_but_not_listed_because_of_caps": unlisted,
+                    "sarif_files_unreadable": SARIF_DROPPED["unreadable"],
+                    "e2e_problems_not_reported_as_violation_lines": max(0, len(e2e_problems) - 5),
+                    "parse_entry_problems_total": entry_stats.get("problems_total", 0)},
         "interesting_code_points": ["U+%04X" % c for c in INTERESTING],
         "random_texts_with_interesting_first_or_last": sum(1 for t in texts if t and (ord(t[0]) in INTERESTING or ord(t[-1]) in INTERESTING)),
-        "rule": "stripper: every string of length <= %d over the 6 symbols / * newline a double-quote e-acute (exhaustive, "
+        "rule": "stripper: every string of length <= %d over 6 symbols (/ * newline, backslash or blank, + two scalars drawn from pool 1 with the seed: "
+                "see seed_dependent) (exhaustive, "
                 "both sides enumerate, per-chunk digests of the full result lines), plus %d seeded random texts (token streams "
                 "with comment shapes %s between tokens, glued shapes, random scalars incl. 3- and 4-byte ones; "
                 "30 %% of the texts get 1-3 'interesting' code points (BOM, ZWSP, NBSP, U+2028/9, CR, TAB, FF, NUL, 4-byte scalars, "
                 "ASCII punctuation) at random places and 40 %% get one forced at the first and/or last offset) and the corpus; a second "
-                "exhaustive sweep over 10 scalars of every UTF-8 length (see exhaustive_part_wide); "
+                "exhaustive sweep over 10 scalars (see exhaustive_part_wide) and a third over 3 scalars up to length 12 "
+                "(exhaustive_part_long); long texts (2-9 kB) among the random ones, texts beyond 2^16 bytes against the Python lexer; "
+                "the real stripper is called with a non-zero file id and the file id of its label is part of its answer; "
                 "an input is nontrivial when the stripper's answer is an error or differs from its input (i.e. it contains a "
                 "comment); counted per distinct input" % (maxlen, len(lines), BLOCK_SHAPES + MULTILINE_SHAPES + LINE_SHAPES),
         "exhaustive": True,
-        "exhaustive_part": "all %d strings of length <= %d over 6 symbols; %d of them contain a comment, %d end inside a block comment"
-                           % (ev_sweep, maxlen, nontrivial_sweep, errs_sweep),
+        "exhaustive_part": "all %d strings of length <= %d over the 6 symbols %s; %d of them contain a comment, %d end inside a block comment"
+                           % (ev_sweep, maxlen, ["U+%04X" % c for c in alphabet1], nontrivial_sweep, errs_sweep),
         "random_texts": len(lines), "blank_invariant_checked_on": blank_checked, "random_nontrivial": len(rnd_nontrivial), "random_unclosed": rnd_err,
         "corpus_cases": len(clines),
+        "python_lexer_confirms": {"random_texts": py_confirmed, "of": len(lines), "unclosed_offsets_at_first_unclosed_opener": py_confirmed_unclosed,
+                                  "meaning": "third implementation (py_comment_mask): answers equal to the real stripper's; for the texts that end "
+                                             "inside a block comment the offset is that of the first `/*` whose prefix ends outside every comment "
+                                             "(the decomposition of C05_unclosed_comment_location_is_byte_offset_of_opener, evaluated per case)"},
         "samples": (disagreements[:1] + failing[:1]) or [ri[1], ri[len(ri) // 2], ri[-1]],
         "disagreements_model_vs_impl": len(disagreements),
         "spec_failures": len(failing),
         "differing_chunks": badchunks,
-        "e2e_templates": n_e2e, "e2e_cli_runs": sum(r["runs"] for r in e2e) + len(unclosed) + sum(r["runs"] for r in strings),
+        "e2e_templates": n_e2e,
+        "e2e_cli_runs": sum(r["runs"] for r in e2e) + len(unclosed) + sum(r["runs"] for r in strings) + sum(r["runs"] for r in projects),
+        "e2e_two_file_projects": {"projects": len(projects), "by_scenario": {str(k): sum(1 for r in projects if r["scenario"] == k) for k in range(4)},
+                                  "scenarios": "0 unclosed comment in one of two files named on the command line (label must name THAT file: "
+                                               "SARIF artifact, stdout location line; exit != 0) and in process on parse_files; "
+                                               "1 unclosed comment in a file that is only included: in process only (unfiltered report "
+                                               "collection of parser::parse_files: error on the opener in that file, no definitions from it); "
+                                               "2 comments in both files, both named, blanked; 3 the same, only main.circom named",
+                                  "label_file_ids_seen": sorted({r["label_file_id"] for r in projects if r["label_file_id"] is not None}),
+                                  "OBSERVATION_included_only_unclosed_comment_not_displayed_by_the_cli":
+                                      "%d of %d projects whose included-only file ends inside a block comment: the CLI prints no error "
+                                      "(`No issues found.` or only the findings of the named file) - the report is located solely in an "
+                                      "included file and C03 (iff) / C19 exclude such reports from the display; recorded as an "
+                                      "observation, not a finding (coordinator's decision, third audit); the named file's use of the "
+                                      "lost template is not reported either"
+                                      % (sum(1 for r in projects if r["included_only_not_displayed"]), sum(1 for r in projects if r["scenario"] == 1))},
+        "e2e_unclosed_asserts": "SARIF error-level result on the two characters of the opener in the file that holds it; exit status != 0; "
+                                "standard output: `error` header with the message of that result, location line <path>:<line>:<col>, "
+                                "summary line counting an issue",
+        "e2e_own_line_payloads": {"templates_whose_only_pragma_is_on_a_line_of_its_own_in_a_block_comment": sum(1 for r in e2e if r["own_line_pragma_only"]),
+                                  "own_line_payload_comments": sum(r["own_line_payloads"] for r in e2e),
+                                  "raw_lines_that_start_with_comment_interior_text": sum(r["raw_lines_starting_with_comment_text"] for r in e2e),
+                                  "shapes": OWN_LINE_SHAPES},
+        "e2e_largest_file_bytes": max(r["max_file_bytes"] for r in e2e),
         "e2e_templates_with_findings": with_findings, "e2e_rules_seen": rules,
         "e2e_findings_per_template_avg": round(sum(r["nfindings"] for r in e2e) / max(1, n_e2e), 2),
         "e2e_unclosed_cases": len(unclosed), "e2e_problems": len(e2e_problems),
@@ -925,17 +1432,33 @@ def run(ctx, proofs):
                             "comment` and the code: hook parser::verif::parse_source, %d sources x 3 variants (%d AST / error-report "
                             "comparisons, %d of the sources parse and contain a comment). The corresponding statements about "
                             "Model.ParseEntry are parametricity facts of the model (the parser is a function of the pre-processed "
-                            "text only) and are lemmas in Proofs.ParseEntryProofs, not obligations (22 obligations, all about "
+                            "text only) and are lemmas in Proofs.ParseEntryProofs, not obligations (21 obligations, all about "
                             "`preprocess`)" % (entry_stats["sources"], entry_stats["asts_compared"], entry_stats["parsed_with_comment"]),
         "behind_parse_file": "consumers of the source behind parser_logic::parse_file that live in other functions — "
                              "parser/src/lib.rs parse_file: FileLibrary::add_file (raw content, used to resolve positions), "
                              "check_compiler_version, FileStack::add_include — are covered by the metamorphic CLI runs only "
                              "(e2e_cli_runs), not by the hook and not by any theorem; parse_string / parse_definition have no hook "
                              "(test-only helpers) and are not observed",
-        "open_statements": [],
+        "open_statements": [
+            "NOT PROVED (observed end to end): replacing a comment by blanks leaves the DISPLAYED findings unchanged - no model of the "
+            "LALRPOP lexer/parser and of the passes behind it; tie: metamorphic CLI runs and the parse-entry AST comparison",
+            "NOT PROVED: the generated lexer skips the blanks that replace a comment like any other white space (default LALRPOP "
+            "lexer, `\\s*`); STRING = \"[^\"]*\" does see them (string literals are not special for the comment lexer)",
+            "NOT PROVED: the report of an unclosed comment (level error, id P1000, file id, display, exit status) - the mirror's error "
+            "is the byte offset only; level, file, range, exit status and standard output are asserted at run time (hook with a "
+            "non-zero file id, CLI runs with one and two files, parse_files in process for an included-only file)",
+            "NOT COVERED by any theorem: parser/src/lib.rs (version check, include stack, FileLibrary) - CLI runs only",
+        ],
     })
     ctx.assumptions += [
         "the mirror Model.Preprocess.preprocess is the Rust function: observed (exhaustive up to length %d over 6 symbols + random), not proved" % maxlen,
+        "the file id of the unclosed-comment report is not modelled (the mirror's error is the offset only): the harness prints it "
+        "when it differs from the id the hook was called with (a differing answer is a failing input), and the CLI runs with two "
+        "files compare the artifact of the label with the file that holds the opener",
+        "white space inside comments: a stripper that keeps TAB / CR / newline inside comments instead of blanking them is reported as "
+        "differing from the reference lexer (the property text says blanks); this is not normalised away because findings CAN change: "
+        "string literals are not special for the comment lexer, so the text of a string literal that contains a comment (an include path, "
+        "shown in the `Failed to open file` message) would keep the white space",
         "`str::chars`, `char_indices`, `char::len_utf8`, `String::push` behave as list traversal, prefix sums of UTF-8 lengths and append",
         "the rest of the pipeline reads only the pre-processed text and resolves positions against the original file: observed end to end "
         "(metamorphic runs of the CLI on %d generated templates, comments with code-like content on every line), not proved" % n_e2e,
@@ -953,7 +1476,8 @@ def replay(ctx, rep):
     harness = common.build_harness("preprocess")
     model = common.build_model("preprocess")
     if rep.get("input"):
-        out = common.run_lines(harness, [], [rep["input"]])
+        # (run with file id 1: the file id of the label is part of the answer)
+        out = common.run_lines(harness, ["fid", "1"], [rep["input"]])
         spec = common.run_lines(model, ["spec"], [rep["input"]])
         print("text          :", repr(text_of(rep["input"])))
         print("implementation:", out[0])
@@ -963,28 +1487,76 @@ def replay(ctx, rep):
         if why:
             print("position clause:", why)
         bl = split_res(common.run_lines(model, ["blank"], [rep["input"]])[0])[1][3:]
-        outb = common.run_lines(harness, [], [bl])
+        outb = common.run_lines(harness, ["fid", "1"], [bl])
         print("with comments blanked:", outb[0])
         same_blank = split_res(outb[0])[1] == res
         return 0 if out[0] == spec[0] and not why and same_blank else 1
     if rep.get("e2e") and rep["e2e"].get("relation", "").startswith("parse entry point"):
         p = rep["e2e"]
-        a = split_res(common.run_lines(harness, ["ast"], [line_of(p["left_text"])])[0])[1]
+        fid = int(p.get("fid", 0))
+        hargs = (["fid", str(fid)] if fid else []) + ["ast"]
+        a = split_res(common.run_lines(harness, hargs, [line_of(p["left_text"])])[0])[1]
         sa = split_res(common.run_lines(model, ["spec"], [line_of(p["left_text"])])[0])[1]
         print("relation:", p["relation"])
         print("source :", repr(p["left_text"]))
         print("  lexer image:", sa[:300])
         print("  answer     :", a[:1500])
         if "right_text" in p:
-            b = split_res(common.run_lines(harness, ["ast"], [line_of(p["right_text"])])[0])[1]
+            b = split_res(common.run_lines(harness, hargs, [line_of(p["right_text"])])[0])[1]
             sb = split_res(common.run_lines(model, ["spec"], [line_of(p["right_text"])])[0])[1]
             print("variant:", repr(p["right_text"]))
             print("  lexer image:", sb[:300], "(same)" if sa == sb else "(DIFFERENT: not an instance of the relation)")
             print("  answer     :", b[:1500])
             return 0 if a == b else 1
+        if "every source that ends inside a block comment gets the same report" in p["relation"]:
+            print("(a relation between several sources of the run; this source carries one of the messages)")
+            return 1
         f = sa.split()
-        ok = sa.startswith("err") and a.startswith("error (report error ") and UNTERMINATED_HEX in a and ("(p %s %s 0 " % (f[1], f[2])) in a
+        ok = sa.startswith("err") and a.startswith("error (report error ") and ("(p %s %s %d " % (f[1], f[2], fid)) in a and a.count("(p ") == 1
         return 0 if ok else 1
+    if rep.get("e2e") and rep["e2e"].get("kind") in ("unclosed", "unclosed-files"):
+        cli = common.build_cli()
+        p = rep["e2e"]
+        print("relation:", p["relation"])
+        if p["kind"] == "unclosed":
+            res = run_cli(cli, ctx.work, "replay_unclosed", p["left_text"])
+            fname, path = "replay_unclosed.circom", os.path.join(ctx.work, "replay_unclosed.circom")
+        else:
+            res = run_cli_files(cli, ctx.work, "replay_project", p["files"], p["args"])
+            fname, path = p["holder"], os.path.join(res["dir"], p["holder"])
+            print("command line:", " ".join(p["args"]), "(unclosed comment in %s at %d:%d)" % (p["holder"], p["line"], p["col"]))
+        print("exit status:", res["rc"])
+        print("findings   :", proj_files(res, 2)[0])
+        print("stdout     :", res["stdout"][-800:])
+        ps = unclosed_report_problems(res, fname, path, p["line"], p["col"], {})
+        for q in ps:
+            print("NOT MET:", q["relation"])
+        return 1 if ps else 0
+    if rep.get("e2e") and rep["e2e"].get("kind") == "project-unclosed":
+        p = rep["e2e"]
+        d = os.path.join(ctx.work, "replay_project")
+        os.makedirs(d, exist_ok=True)
+        for fn, text in p["files"].items():
+            with open(os.path.join(d, fn), "w", encoding="utf-8", newline="") as f:
+                f.write(text)
+        print("relation:", p["relation"])
+        print("parse_files on:", " ".join(p["args"]), "(unclosed comment in %s at byte %d)" % (p["holder"], p["off"]))
+        ps, ans = project_unclosed_problems(harness, d, p["files"], p["args"], p["holder"], p["off"], {})
+        print("answer:", json.dumps({k: ans.get(k) for k in ("mode", "files", "reports", "defs")})[:1500])
+        for q in ps:
+            print("NOT MET:", q["relation"])
+        return 1 if ps else 0
+    if rep.get("e2e") and rep["e2e"].get("kind") in ("files-metamorphic", "files-ran"):
+        cli = common.build_cli()
+        p = rep["e2e"]
+        print("relation:", p["relation"])
+        a = run_cli_files(cli, ctx.work, "replay_project", p["files"], p["args"])
+        print("left  :", proj_files(a, 2))
+        if "right_files" in p:
+            b = run_cli_files(cli, ctx.work, "replay_project_right", p["right_files"], p["args"])
+            print("right :", proj_files(b, 2))
+            return 0 if proj_files(a, 2) == proj_files(b, 2) else 1
+        return 1 if a["panic"] or a["findings"] is None else 0
     if rep.get("e2e"):
         cli = common.build_cli()
         p = rep["e2e"]
@@ -994,7 +1566,7 @@ def replay(ctx, rep):
         if "right_text" in p:
             b = run_cli(cli, ctx.work, "replay_right", p["right_text"])
             print("right (%s): %s" % (p["right"], proj(b, 2)))
-            lvl = 0 if "between tokens" in p["relation"] else 1 if "same lines" in p["relation"] else 2
+            lvl = p["level"] if "level" in p else 0 if "between tokens" in p["relation"] else 1 if "same lines" in p["relation"] else 2
             return 0 if proj(a, lvl) == proj(b, lvl) else 1
         return 1
     print("replay names a broken obligation, not an input:", rep.get("broken"))
